@@ -377,6 +377,17 @@ def w_rotations(ctx, rng, i):
             back = np.asarray(got.as_vector(), dtype=float)
             if _amax(np.asarray(got.rotation_matrix, dtype=float) - quat_to_matrix(qq)) > 1e-9 or _amax(back - qq) > 1e-8:
                 ctx.fail("quaternion_does_not_round_trip", cls="Rotation", mech="from_vector_on_a_template_with_%s_matrix" % np.asarray(tpl.h_matrix).dtype.kind, given=qq, got=back)
+            else:
+                # a second rotation derived from the same template: the first one still reports its own quaternion, and the
+                # template is still the rotation it was
+                tpl_m = np.array(tpl.h_matrix, dtype=float, copy=True)
+                q2 = unit_quaternion(rng)
+                got2 = tpl.from_vector(q2)
+                back1, back2 = np.asarray(got.as_vector(), dtype=float), np.asarray(got2.as_vector(), dtype=float)
+                if _amax(back1 - qq) > 1e-8 or _amax(back2 - q2) > 1e-8:
+                    ctx.fail("quaternion_does_not_round_trip", cls="Rotation", mech="after_a_second_rotation_was_derived_from_the_same_template", given=qq, got=back1)
+                if _amax(np.asarray(tpl.h_matrix, dtype=float) - tpl_m) > 0:
+                    ctx.fail("quaternion_does_not_round_trip", cls="Rotation", mech="deriving_a_rotation_changed_the_template")
         except Exception as e:
             ctx.fail("quaternion_constructor_raised", cls="Rotation", mech="from_vector:" + type(e).__name__)
     else:
